@@ -96,7 +96,9 @@ def case_key(d) -> str:
 
 def case_dir(d) -> Path:
     from . import core
-    h = hashlib.sha1(case_key(d).encode()).hexdigest()[:12]
+    # the module name is part of the directory name: two generated models with the same content (e.g. a single field-less
+    # class) but different module names must not share their scratch files
+    h = hashlib.sha1((d["module"] + "|" + case_key(d)).encode()).hexdigest()[:12]
     return core.WORK / PROP / RUN_TAG / f"m_{h}"     # per-process scratch: concurrent runs of this check do not share files
 
 
